@@ -101,6 +101,10 @@ def rule_center_distance(ctx: Ctx) -> None:
     fd = ctx.func("common.distance_objects")
     seen = set()
     for p in enum_paths(ctx, fd):
+        same_t = fact_where(p, lambda k: S(k) in ("same:type(object_1)==type(object_2)", "same:type(object_2)==type(object_1)"))
+        if same_t is not None:
+            ctx.check((bool(p.exit) and p.exit[0] == "raise") == (not same_t), "C06-center", "distance_objects", f"rejects-iff-different-types:{int(bool(same_t))}",
+                      "objects of " + ("the same type are rejected" if same_t else "different types are compared"), fi=fd)
         if p.exit and p.exit[0] == "raise":
             continue
         is3d = fact_where(p, lambda k: S(k) == "isinstance:object_1,DynamicObject")
@@ -117,6 +121,11 @@ def rule_center_distance(ctx: Ctx) -> None:
     for fn, bev in (("distance_points", False), ("distance_points_bev", True)):
         fp = ctx.func("common.point." + fn)
         for p in enum_paths(ctx, fp):
+            dims = [v for k, v in p.facts.items() if S(k) in ("eq:len(point_1)==3", "eq:len(point_2)==3")]
+            raised = bool(p.exit) and p.exit[0] == "raise"
+            if dims:
+                ctx.check(raised == (not all(dims)), "C06-center", fn, f"rejects-iff-not-3d:{int(raised)}:{len(dims)}",
+                          f"{fn} {'rejects' if raised else 'accepts'} points with 3-d tests {dims}; it must reject exactly the inputs that are not two 3-d points", fi=fp)
             if p.exit and p.exit[0] == "raise":
                 continue
             rv = S(p.retval) if p.retval is not None else ""
